@@ -286,11 +286,35 @@ func c12CancelInWrite(r *Run) {
 	}
 }
 
+// a template source that is also an io.Closer whose Close fails (a network body, a file on a stale handle): whatever
+// the library does with the source, an error still means the destination got nothing
+type c12BadCloser struct{ io.Reader }
+
+func (c12BadCloser) Close() error { return errors.New("connection reset by peer") }
+
+func c12ClosableSource(r *Run) {
+	for _, tpl := range []string{`<p>{{ n }}</p>`, strings.Repeat("<p>row {{ n }}</p>\n", 200), `<p>{{ n | nosuchfilter }}</p>`} {
+		var buf bytes.Buffer
+		err := vuego.NewFS(fstest.MapFS{}).Fill(map[string]any{"n": 1}).RenderReader(context.Background(), &buf, c12BadCloser{strings.NewReader(tpl)})
+		r.Eval("closable-source:"+fmt.Sprint(len(tpl)), true, nil)
+		r.Count("stream:closable-source(oracle only)")
+		sig := map[string]string{"oracle": "closable-source", "entry": "RenderReader"}
+		desc := map[string]any{"template_bytes": len(tpl), "received_bytes": buf.Len(), "err": fmt.Sprint(err)}
+		switch {
+		case err != nil && buf.Len() > 0:
+			r.Fail("a render returned an error although the destination received output", sig, desc)
+		case err == nil && buf.Len() == 0:
+			r.Fail("a render returned nil without writing the document", sig, desc)
+		}
+	}
+}
+
 func init() { streams["C12"] = runC12 }
 
 func runC12(r *Run) {
 	c12MidCancel(r)
 	c12CancelInWrite(r)
+	c12ClosableSource(r)
 	r.Imports = []string{"Model.Entry"}
 	r.Rule("every Template render entry point (Render with/without layouts, RenderFile, RenderString, RenderByte, RenderReader) x a catalogue of succeeding and failing programs " +
 		"(failure early, late, inside include, inside loop, unmet :required, missing page, missing layout, failure in a layout, in the last link of a 3-chain, layout cycle) " +
